@@ -159,7 +159,7 @@ func RecordNames(p *Prog) {
 			continue
 		}
 		pk := FuncPkgPath(fn)
-		per[pk] = append(per[pk], fn.Name())
+		per[pk] = append(per[pk], qualName(fn))
 	}
 	for pk, names := range per {
 		sort.Strings(names)
@@ -192,6 +192,20 @@ func SaveRequested(path string) error {
 	b, _ := json.MarshalIndent(list, "", " ")
 	os.MkdirAll(filepath.Dir(path), 0755)
 	return os.WriteFile(path, append(b, '\n'), 0644)
+}
+
+// qualName: "f" for functions, "T.m" for methods (receiver type name without pointer).
+func qualName(fn *ssa.Function) string {
+	if r := fn.Signature.Recv(); r != nil {
+		t := r.Type()
+		if p, ok := t.(*types.Pointer); ok {
+			t = p.Elem()
+		}
+		if n, ok := t.(*types.Named); ok {
+			return n.Obj().Name() + "." + fn.Name()
+		}
+	}
+	return fn.Name()
 }
 
 func jaccard(a, b []string) float64 {
@@ -233,7 +247,7 @@ func (p *Prog) resolveByShape(pkgPath, spec string) *ssa.Function {
 			continue
 		}
 		// a function that kept a name of the original tree was not renamed: not a candidate
-		if knownNames[pkgPath+"|"+fn.Name()] {
+		if knownNames[pkgPath+"|"+qualName(fn)] {
 			continue
 		}
 		sh := shapeOf(fn)
@@ -251,6 +265,23 @@ func (p *Prog) resolveByShape(pkgPath, spec string) *ssa.Function {
 	}
 	if len(cands) == 0 {
 		return nil
+	}
+	// a candidate that kept the function/method name (only its receiver type was renamed) wins outright
+	wantName := spec
+	if i := strings.LastIndex(spec, "."); i >= 0 {
+		wantName = spec[i+1:]
+	}
+	var same []cand
+	for _, c := range cands {
+		if c.fn.Name() == wantName {
+			same = append(same, c)
+		}
+	}
+	if len(same) == 1 {
+		anchorMu.Lock()
+		Fallbacks[pkgPath+"|"+spec] = ShortFn(same[0].fn)
+		anchorMu.Unlock()
+		return same[0].fn
 	}
 	sort.Slice(cands, func(i, j int) bool { return cands[i].score > cands[j].score })
 	if cands[0].score < 0.5 {
